@@ -473,6 +473,51 @@ fn standalone_entries(rep: &mut Report, r: &mut Rng) {
     }
 }
 
+/// "the current code segment" is the one loaded when the handler is set: two installations around a CS reload in one
+/// function carry the selector of before and of after. CS cannot really change in this process, so this runs in
+/// single-step mode with an emulated CS (E4): the far return of CS::set_reg loads it, `mov r, cs` reads it.
+#[inline(never)]
+fn two_handlers_around_a_cs_reload(e1: &mut Entry<HandlerFunc>, e2: &mut Entry<HandlerFunc>, a: u64, b: u64, sel: u16) {
+    use x86_64::instructions::segmentation::{Segment, CS};
+    trapemu::step_begin();
+    unsafe {
+        e1.set_handler_addr(VirtAddr::new(a));
+        CS::set_reg(x86_64::structures::gdt::SegmentSelector(sel));
+        e2.set_handler_addr(VirtAddr::new(b));
+    }
+    trapemu::step_end();
+}
+
+fn cs_reload_between_installations(rep: &mut Report, r: &mut Rng) {
+    let own = own_cs();
+    for _ in 0..4 {
+        rep.eval();
+        let sel = match r.below(3) {
+            0 => 0x08,
+            1 => 0x10 | (r.below(4) as u16),
+            _ => (r.next() as u16 & 0xfff8).max(8),
+        };
+        let (a, _) = gen::canon(r);
+        let (b, _) = gen::canon(r);
+        let mut e1: Entry<HandlerFunc> = Entry::missing();
+        let mut e2: Entry<HandlerFunc> = Entry::missing();
+        let regs = trapemu::regs();
+        regs.sreg[1] = own;
+        regs.emulate_cs_reads = true;
+        crate::util::fault_means_nothing();
+        let (_, evs) = trapemu::trapped(|| two_handlers_around_a_cs_reload(&mut e1, &mut e2, a, b, sel));
+        let regs = trapemu::regs();
+        regs.emulate_cs_reads = false;
+        regs.sreg[1] = own;
+        let (g1, g2) = (decode(&entry_bytes(&e1)), decode(&entry_bytes(&e2)));
+        let reads = evs.iter().filter(|e| e.kind == K::MovFromCs).count();
+        if g1.selector != own || g2.selector != sel || g1.offset != a || g2.offset != b || reads < 2 {
+            rep.violation("set_handler_addr|around-a-CS-reload|gate-does-not-carry-the-code-segment-current-at-that-moment", J::obj(vec![("profile", J::s(crate::util::profile_name())), ("cs_before", J::hex(own as u64)), ("cs_after", J::hex(sel as u64)), ("first_gate_selector", J::hex(g1.selector as u64)), ("second_gate_selector", J::hex(g2.selector as u64)), ("cs_reads_executed", J::U(reads as u64))]));
+        }
+        rep.class("gate|code-segment-read-at-each-installation");
+    }
+}
+
 fn load(rep: &mut Report) {
     let idt = Box::new(InterruptDescriptorTable::new());
     let base = &*idt as *const _ as u64;
@@ -496,6 +541,7 @@ pub fn run(a: &Args, rep: &mut Report) {
     let mut r = Rng::derive(a.seed, "c12", a.shard);
     if !cfg!(miri) {
         standalone_entries(rep, &mut r);
+        cs_reload_between_installations(rep, &mut r);
     }
     if cfg!(miri) {
         // structure code only: raw-byte layout of the table and Index<u8>
